@@ -48,6 +48,29 @@ func c19Paths(maxComp int) []string {
 	return out
 }
 
+// c19PathsOver: every path of 1..maxComp components over comps, relative and rooted.
+func c19PathsOver(comps []string, maxComp int) []string {
+	var out []string
+	prev := []string{""}
+	for n := 1; n <= maxComp; n++ {
+		var next []string
+		for _, p := range prev {
+			for _, c := range comps {
+				if n == 1 {
+					next = append(next, c)
+				} else {
+					next = append(next, p+"/"+c)
+				}
+			}
+		}
+		for _, rel := range next {
+			out = append(out, rel, "/"+rel)
+		}
+		prev = next
+	}
+	return out
+}
+
 // ---------- classification helpers (they only name the key of a violation) ----------
 
 func c19Names(p string) (rooted bool, names []string) {
@@ -192,6 +215,12 @@ func c19CheckOps(ctx *Ctx, res *Result, paths []string) {
 		cmp("CleanPath", hx(r.CleanPath), f[5])
 		if rootOnly {
 			res.Count("ops_root_only", 1)
+		}
+		if len(r.Parts) >= 6 {
+			res.Count("ops_cleanpath_loop_entered", 1)
+		}
+		if n := len(strings.Split(r.CleanPath, "/")); len(r.Parts) >= 4 && n <= len(r.Parts)-4 {
+			res.Count("ops_cleanpath_removed_a_pair", 1)
 		}
 		if strings.Contains(p, "..") {
 			res.Count("ops_with_dotdot", 1)
@@ -546,7 +575,7 @@ func c19CheckLineRel(ctx *Ctx, res *Result, quads []c19Quad) {
 // ---------- driver ----------
 
 func runC19(ctx *Ctx) *Result {
-	res := &Result{Rule: "paths: every path of <=K components over {a,b,pkg,mk,wip,.,..,\"\"} joined by '/', relative and with a leading '/', plus the empty path (K=3 quick, 4 thorough); unary functions on all of them; the three predicates on all ordered pairs (thorough: all pairs of <=4-component paths); filepath.Rel/Path.Rel on all pairs of <=2-component paths plus random pairs; Relpath on every (from,to) of <=2-component (thorough: <=3-component) paths for every (cwd, pkgsrc root) configuration (root at depth 0..3 above cwd, relative/absolute/redundant) plus random quadruples of <=K-component paths; Line.Rel on a sample. Non-trivial = a predicate pair with at least one of the six verdicts (3 implementation, 3 specification) true, or a Relpath quadruple with `from` inside the tree and cfrom != cto; all counted cases are distinct by construction (exhaustive part) "}
+	res := &Result{Rule: "paths: every path of <=K components over {a,b,pkg,mk,wip,.,..,\"\"} joined by '/', relative and with a leading '/', plus the empty path (K=3 quick, 4 thorough); unary functions on all of them and on all paths of <=9 (11) components over {a,..} and <=6 (7) over {a,pkg,..,.,\"\"} (CleanPath acts from 6 parts on); the three predicates on all ordered pairs (thorough: all pairs of <=4-component paths); filepath.Rel/Path.Rel on all pairs of <=2-component paths plus random pairs; Relpath on every (from,to) of <=2-component (thorough: <=3-component) paths for every (cwd, pkgsrc root) configuration (root at depth 0..3 above cwd, relative/absolute/redundant) plus random quadruples of <=K-component paths; Line.Rel on a sample. Non-trivial = a predicate pair with at least one of the six verdicts (3 implementation, 3 specification) true, or a Relpath quadruple with `from` inside the tree and cfrom != cto; all counted cases are distinct by construction (exhaustive part) "}
 	rng := NewRng(ctx.Seed)
 	maxComp, nrandRel, nrandQuad := 3, 20000, 60000
 	if ctx.Tier == "thorough" {
@@ -558,6 +587,27 @@ func runC19(ctx *Ctx) *Result {
 	nontrivial := &c19Seen{}
 
 	c19CheckOps(ctx, res, paths)
+	if res.Broken != "" {
+		return res
+	}
+	// CleanPath only acts on paths of >= 6 parts ("a/b/c/d/../.."): longer paths over smaller alphabets
+	longN, midN := 9, 6
+	if ctx.Tier == "thorough" {
+		longN, midN = 11, 7
+	}
+	seenLong := map[string]bool{}
+	for _, s := range paths {
+		seenLong[s] = true
+	}
+	var long []string
+	for _, s := range append(c19PathsOver([]string{"a", ".."}, longN), c19PathsOver([]string{"a", "pkg", "..", ".", ""}, midN)...) {
+		if !seenLong[s] {
+			seenLong[s] = true
+			long = append(long, s)
+		}
+	}
+	res.Count("long_paths", len(long))
+	c19CheckOps(ctx, res, long)
 	if res.Broken != "" {
 		return res
 	}
@@ -655,7 +705,8 @@ func runC19(ctx *Ctx) *Result {
 		key string
 		min int
 	}{{"pred_HasPrefixPath_true", 1000}, {"pred_ContainsPath_true", 1000}, {"pred_HasSuffixPath_true", 500},
-		{"rel_ok", 1000}, {"rel_error", 100}, {"ops_root_only", 4}, {"ops_with_dotdot", 100}, {"ops_with_double_slash", 50}} {
+		{"rel_ok", 1000}, {"rel_error", 100}, {"ops_root_only", 4}, {"ops_with_dotdot", 100}, {"ops_with_double_slash", 50},
+		{"ops_cleanpath_loop_entered", 1000}, {"ops_cleanpath_removed_a_pair", 200}} {
 		if n, _ := res.Distribution[fl.key].(int); n < fl.min {
 			res.Broken = fmt.Sprintf("coverage floor missed: %s = %d < %d", fl.key, n, fl.min)
 			return res
